@@ -107,6 +107,7 @@ Lemma step_datn_frag : forall rec coef d q t, mentries_ok d = true -> atom_ok t 
 Proof.
   intros rec coef d q t D T Q. destruct (atom_ok_inv _ T) as (Wt & Ct & At).
   unfold step_datn, datn_frag. cbv zeta.
+  assert (PT : pow_int_term t (ENum q) = None) by (destruct t; try discriminate At; reflexivity). rewrite PT.
   destruct (mlookup t d) as [[k v]|] eqn:L.
   - pose proof (mlookup_in _ _ _ _ L) as Hin.
     destruct (mentry_ok_inv k v (mentries_in _ _ D Hin)) as (Tk & vn & -> & Qv).
